@@ -783,6 +783,85 @@ def unbox_drop_races(chk):
     chk.cov["unbox_drop_races"] = {"runs": n, "window_reached": hit}
 
 
+def concurrent_unbox_races(chk):
+    """the holder serves with two threads: both unbox a fresh reference to the same object at once, one of them set aside at
+    every source line of _unbox and of the proxy's attribute hooks.  Afterwards the proxy's count must cover all references
+    (dropping it then releases the object at the owner)."""
+    from rpyc.core.protocol import Connection
+    from rpyc.core.netref import BaseNetref
+    funcs = [Connection._unbox, BaseNetref.__getattribute__, BaseNetref.__setattr__]
+    points = []
+    for f in funcs:
+        c = f.__code__
+        for (_, _, ln) in c.co_lines():
+            if ln is not None and ln != c.co_firstlineno:
+                points.append((c.co_name, ln - c.co_firstlineno))
+    points = sorted(set(points))
+    n = reached = 0
+    for pt in points:
+        for occ in ((1, 2, 3) if chk.thorough else (1, 2)):
+            fx = Fixture(["k1"], False)
+            lines = None
+            try:
+                apply_action(fx, "Send", "k1")
+                apply_action(fx, "DeliverToHolder")
+                while fx.stream_msgs(fx.net.b):
+                    apply_action(fx, "DeliverToOwner")
+                apply_action(fx, "Send", "k1")
+                apply_action(fx, "Send", "k1")
+                s2 = fx.sched.spawn("H_srv2", fx._serve, fx.ch)
+                fx.sched.settle()
+                lines = sim.LineYields(fx.sched, funcs)
+                lines.__enter__()
+                fx.net.deliver(fx.net.a)
+                fx.net.deliver(fx.net.a)
+                st = {"n": 0, "held": None, "left": 3000}
+
+                class Pol(object):
+                    def choose(self, sched, choices):
+                        by = {c[0]: c for c in choices}
+                        if st["held"] is None:
+                            for t in (fx.h_srv, s2):
+                                op = t.pending
+                                if t in by and getattr(op, "kind", None) == "line" and tuple(op.info or ()) == pt:
+                                    st["n"] += 1
+                                    if st["n"] == occ:
+                                        st["held"] = t
+                                        break
+                        if st["held"] not in (None, False):
+                            others = [c for c in choices if c[0] is not st["held"]]
+                            if others and st["left"] > 0:
+                                st["left"] -= 1
+                                return others[0]
+                            st["held"] = False
+                        return choices[0]
+                try:
+                    fx.sched.run(Pol(), until=fx.sched.quiescent, max_steps=40000)
+                except sim.Deadlock:
+                    pass
+                lines.__exit__()
+                lines = None
+                n += 1
+                reached += 1 if st["held"] is False else 0
+                chk.evaluated()
+                chk.distinct(("concurrent-unbox", pt, occ))
+                hist = ["Send(k1)", "deliver", "Send(k1)", "Send(k1)", "two serving threads unbox at once, one set aside before %s+%d" % pt]
+                bad = list(oracle(fx, "Race", None, None, len(fx.touched)))
+                if not bad and len(fx.held["k1"]) != 3:
+                    bad.append(("reference-lost", "three references were sent, %d arrived" % len(fx.held["k1"])))
+                for key, msg in bad:
+                    chk.violation("race2:" + key, "C10 [holder serving with two threads] %s (history: %s)" % (msg, hist),
+                                  {"mode": "concurrent-unbox", "point": list(pt), "occ": occ})
+                if not bad:
+                    drain(chk, fx, hist, ["k1"])
+                    chk.validated()
+            finally:
+                if lines is not None:
+                    lines.__exit__()
+                fx.teardown()
+    chk.cov["concurrent_unbox_races"] = {"runs": n, "window_reached": reached}
+
+
 def both_directions(chk):
     """the same object lent in both directions between two ends in one process, class queries in between (the history in which
     a release notice for a reference never handed out was found): every proxy must stay usable"""
@@ -885,6 +964,7 @@ def main():
     both_directions(chk)
     refcoll_race(chk)
     unbox_drop_races(chk)
+    concurrent_unbox_races(chk)
     chk.assumptions += [
         "CPython reference counting runs proxy finalizers at the moment the last handle is dropped (automatic GC is off)",
         "frames are delivered whole and in order per direction; the harness chooses when each direction advances",
